@@ -86,6 +86,49 @@ def random_shape(rng, n, kind):
     return root
 
 
+def motif_shape(rng, budget):
+    """Shapes composed from a few regular motifs (chains, zig-zags, full trees), so
+    that coincidences between subtree depths and contours -- which the contour
+    threading logic is sensitive to -- are common rather than rare."""
+    def chain(k, side):
+        s = [None, None]
+        cur = s
+        for _ in range(k - 1):
+            nxt = [None, None]
+            cur[side] = nxt
+            cur = nxt
+        return s
+
+    def zig(k, side):
+        s = [None, None]
+        cur = s
+        for i in range(k - 1):
+            nxt = [None, None]
+            cur[(side + i) % 2] = nxt
+            cur = nxt
+        return s
+
+    def full(d):
+        return [None, None] if d <= 0 else [full(d - 1), full(d - 1)]
+
+    def make(b):
+        if b <= 0:
+            return None
+        r = rng.random()
+        if b == 1 or r < 0.12:
+            return [None, None]
+        if r < 0.3:
+            return chain(rng.randint(2, min(6, b)), rng.randrange(2))
+        if r < 0.4:
+            return zig(rng.randint(2, min(6, b)), rng.randrange(2))
+        if r < 0.52:
+            return full(rng.randint(1, 3 if b >= 15 else (2 if b >= 7 else 1)))
+        left = make((b - 1) // 2) if rng.random() < 0.9 else None
+        right = make((b - 1) // 2) if rng.random() < 0.9 else None
+        return [left, right]
+    return make(budget) or [None, None]
+
+
 def shape_of(node):
     if node is None:
         return None
@@ -479,7 +522,9 @@ class LayoutSim:
             ]
             return cfg
         r = rng.random()
-        if r < 0.45:
+        if r < 0.2:
+            cfg["tree"] = {"kind": "shape", "shape": motif_shape(rng, rng.choice([8, 14, 20, 30, 45, 60]))}
+        elif r < 0.45:
             n = rng.choice([3, 5, 6, 8, 10, 12, 15, 18, 21, 25, 30, 40, 60])
             cfg["tree"] = {"kind": "shape", "shape": random_shape(rng, n, "any")}
         elif r < 0.75:
